@@ -117,7 +117,7 @@ def check_case(case, stats=None, K=oracle.K_QUICK):
         raise Violation("C05:label-mode-changes-acceptance", {"labelled": oracle.public(lab), "numbered": oracle.public(num), "opts": base})
     if "error" in lab:
         if stats is not None:
-            stats.discarded["reject:" + ("registers" if "out of registers" in lab["error"]["description"] else oracle.error_class(lab["error"]["description"]))] += 1
+            stats.discarded["reject:" + ("registers" if oracle.out_of_registers(lab["error"]["description"]) else oracle.error_class(lab["error"]["description"]))] += 1
         return
     detail = {"opts": base, "labelled": lab["code"], "numbered": num["code"]}
     bad, referenced = structural(lab["code"])
